@@ -600,7 +600,9 @@ def l2_suite(profile, quick=60, thorough=1500, native=True, name=None, extra_mon
                                 kinds_c, ties_c = parse_sql_kinds(c), tie_keys(c)
                             except (ValueError, IndexError):
                                 kinds_c, ties_c = [], set()
-                        if 1 <= j <= len(kinds_c) and kinds_c[j - 1][0] == 'changes' and ties_c:
+                        # (only when a side of the diff names SEVERAL versions, which are then merged:
+                        #  between two single versions the answer is fixed, ties included)
+                        if 1 <= j <= len(kinds_c) and kinds_c[j - 1][0] == 'changes' and ties_c and max(kinds_c[j - 1][2:4]) >= 2:
                             rx, ry = rows_by_key(x), rows_by_key(y)
                             if rx is not None and ry is not None and \
                                {k: v for k, v in rx.items() if k not in ties_c} == {k: v for k, v in ry.items() if k not in ties_c}:
@@ -656,6 +658,18 @@ def l2_suite(profile, quick=60, thorough=1500, native=True, name=None, extra_mon
                     pass
                 m = dict(suite=res.name, case=c, op_index=j + 1, impl=' '.join(s3c)[:1500], spec=' '.join(nat)[:1500],
                          what='s3db table and native SQLite table disagree on the same statement')
+                try:
+                    kept = key_class_kept_excuse(c, mask_empty_text(s3c), mask_empty_text(nat))
+                except (ValueError, IndexError):
+                    kept = False
+                if kept:
+                    kid = known_match(ctx, 'reinserted_key_keeps_old_numeric_class')
+                    m['what'] = 'a key deleted and inserted again with the numerically equal value of the other storage class comes back with its old class'
+                    if kid:
+                        m['finding'] = kid; res.known_hits.append(m)
+                    elif ctx.prop in ('C06', 'C08'):
+                        res.property_failures.append(m)
+                    continue
                 if desc_sparse_excuse(c, s3c, mask_empty_text(nat)) or desc_sparse_excuse(c, s3c, nat):
                     kid = known_match(ctx, 'desc_scan_sparse_interior_node')
                     if ctx.prop not in ('C06', 'C08'): continue
@@ -771,6 +785,33 @@ def resurrection_excuse(case, vac, j, got, want):
     if 1 <= j <= len(ops) and ops[j - 1]['key'] is not None:
         return tuple(ops[j - 1]['key']) in {tuple(k) if not isinstance(k, tuple) else k for k in keys}
     return False
+
+def key_class_kept_excuse(case, got, want):
+    """finding F-C08-2: a key that was stored with one numeric storage class (REAL 5.0), deleted, and
+    inserted again with the numerically equal value of the other class (INTEGER 5) keeps its OLD
+    representation (the tree replaces the value of the equal key, not the key).  Shape: both results
+    are row lists that are identical once integral REAL tokens are read as INTEGER, they differ only
+    in key tokens, and the case INSERTs both representations of every such key."""
+    if got[:2] != want[:2] or got[:1] not in (['SA'], ['SD'], ['SO']) or got[1:2] != ['ok']:
+        return False
+    if got == want or _norm_numeric(got) != _norm_numeric(want):
+        return False
+    gr, wr = split_rows(['S'] + got[1:]), split_rows(['S'] + want[1:])
+    if gr is None or wr is None or len(gr) != len(wr):
+        return False
+    ins = set()
+    t = case.split()
+    for i, x in enumerate(t):
+        if x == 'ins' and i + 3 < len(t) and t[i + 2] in ('I', 'R'):
+            ins.add((t[i + 2], t[i + 3]))
+    for a, b in zip(gr, wr):
+        if a == b:
+            continue
+        if a[1:] != b[1:] or a[0][0] not in ('I', 'R') or b[0][0] not in ('I', 'R') or a[0][0] == b[0][0]:
+            return False
+        if tuple(a[0]) not in ins or tuple(b[0]) not in ins:
+            return False
+    return True
 
 def rolled_back_insert_excuse(case, j, got, want):
     """finding F-C05-1 (mast links a new leaf into a node shared with the pre-transaction
@@ -1144,7 +1185,7 @@ def parse_sql_kinds(case):
         elif k in ('version', 'rdconn'): out.append((k, int(t[i + 1]))); i += 2
         elif k == 'selo': out.append((k, int(t[i + 1]))); i += 4
         elif k == 'vacuum': out.append((k, int(t[i + 1]))); i = names(names(names(i + 3)))
-        elif k == 'changes': out.append((k, int(t[i + 1]))); i = names(names(i + 2))
+        elif k == 'changes': out.append((k, int(t[i + 1]), int(t[i + 2]), int(t[names(i + 2)]))); i = names(names(i + 2))
         else: raise ValueError('parse_sql_kinds: ' + k)
     return out
 
@@ -1259,7 +1300,8 @@ register('C10', [l1_suite(['rows', 'plain'], monitor=chain(c09_l1_monitor, deter
                  l2_suite('vacuum', native=False, extra_monitor=c09_monitor, name='l2-vacuum'),
                  l1_suite(['plain', 'rows'], name='l1f', quick=150, monitor=chain(c09_l1_monitor, determined_result_monitor('after a history deletion interrupted by a storage fault and retried, the bucket does not hold exactly what the cutoff rule retains (version records or node objects left behind, or retained data lost)'))),],
          ['version creation times are passed explicitly at the kv level'])
-register('C15', [l2_suite('conn', native=False, extra_monitor=lambda *a: (c15_monitor(*a), c02_monitor(*a)), name='l2-conn'),
+register('C15', [l2_suite('conn', native=False, extra_monitor=lambda *a: (c15_monitor(*a), c02_monitor(*a)), name='l2-conn',
+                          determined='a statement returns other rows (or another outcome) than the write times of the statements executed so far fix'),
                  l0_suite(['merge_rows', 'merge_values'])],
          ['write times have second granularity (SQLiteTimeFormat)'])
 register('C05', [l2_suite('tx', name='l2-tx'), l2_suite('multi', native=False, extra_monitor=c02_monitor, name='l2-multi'),
@@ -1429,7 +1471,8 @@ def c20_suite(quick=300, thorough=8000):
     return f
 
 register('C19', [l2_suite('threads', native=True, name='l2-threads', level='l2t', binary='harness-race', quick=48, thorough=1200,
-                          extra_monitor=lambda *a: (c15_monitor(*a), c02_monitor(*a))),
+                          extra_monitor=lambda *a: (c15_monitor(*a), c02_monitor(*a)),
+                          determined='a world (its own connections, tables and bucket) that runs while other worlds run in the same process reads other rows than its own statements explain'),
                  l2_suite('cachemix', native=False, name='l2-cachemix', quick=12, thorough=300, extra_monitor=c09_monitor,
                           determined='connections of one process on one prefix, some with a node cache: a connection reads other rows than the statements explain (cross-talk through process-wide state)'),
                  lambda ctx: l1s_suite()(ctx)],
@@ -1554,6 +1597,8 @@ def l1s_suite(quick=400, thorough=20000):
         return res
     return f
 
-register('C03', [l1s_suite(), l1_suite(['rows', 'plain'], name='l1f', quick=120,
+register('C03', [l2_suite('multi', native=False, name='l2-multi', quick=60, thorough=1500,
+                          determined='a connection that refreshed (or opened) after another connection\'s commit had completed does not see the rows of that commit'),
+                 l1s_suite(), l1_suite(['rows', 'plain'], name='l1f', quick=120,
                                        monitor=chain(mutation_order_monitor, determined_result_monitor('an open that succeeded does not contain every version that was committed before it began')))],
          ['requests are atomic, a listing of current/ included (it fits one page: fewer than 1000 versions; a listing that needs several pages is not a snapshot, and an open racing with a merging commit could then miss a version — not explored); between two scheduling points only one client runs; reads of node objects (immutable, never deleted at this level) are not scheduling points'])
